@@ -10,6 +10,7 @@ import (
 	"os"
 	"os/exec"
 	"path/filepath"
+	"sort"
 	"strings"
 	"time"
 	"unicode"
@@ -450,6 +451,41 @@ func applyModel(l lm.List, o opSpec) (lm.List, bool) {
 	return nil, false
 }
 
+// histDefs: digest of the definition tables and of the references into them after the last history replayed. Part of
+// the search's state key: two lists with the same cues and other tables (after Optimize, Merge) have other futures.
+var histDefs string
+
+func defsDigest(s *astisub.Subtitles) string {
+	var st, rg []string
+	for id, v := range s.Styles {
+		p := ""
+		if v != nil && v.Style != nil {
+			p = v.Style.ID
+		}
+		st = append(st, id+"<"+p)
+	}
+	for id, v := range s.Regions {
+		p := ""
+		if v != nil && v.Style != nil {
+			p = v.Style.ID
+		}
+		rg = append(rg, id+"<"+p)
+	}
+	sort.Strings(st)
+	sort.Strings(rg)
+	var b strings.Builder
+	fmt.Fprint(&b, st, rg)
+	for _, it := range s.Items {
+		if it.Style != nil {
+			b.WriteString(" s:" + it.Style.ID)
+		}
+		if it.Region != nil {
+			b.WriteString(" r:" + it.Region.ID)
+		}
+	}
+	return b.String()
+}
+
 type HistCase struct {
 	Doc     string   `json:"doc"`
 	Format  string   `json:"format"`
@@ -513,6 +549,7 @@ func checkHistory(hc HistCase) (key, msg string, state lm.List, okModel bool) {
 		// keep the model in the real list's order (equal starts may be permuted)
 		model = got
 	}
+	histDefs = defsDigest(s)
 	if hc.Dest == "" {
 		return "", "", model, true
 	}
@@ -766,7 +803,7 @@ func run(c *core.Ctx) {
 	if c.Tier == core.Thorough {
 		depth = 4
 	}
-	srcs := []string{"vtt-equal-times-equal-texts", "ttml-framerate-24", "ssa-v4plus", "stl-open-30-tcp10h", "srt-lf", "srt-bom-noindex-eofblank", "vtt-full", "ssa-small", "ttml-small", "stl-open-25-2", "testdata/example-in.srt", "testdata/example-in.vtt", "testdata/example-in.ttml", "testdata/example-in.ssa", "testdata/example-opn-in.stl"}
+	srcs := []string{"vtt-equal-times-equal-texts", "ttml-region-style-chain", "ttml-framerate-24", "ssa-v4plus", "stl-open-30-tcp10h", "srt-lf", "srt-bom-noindex-eofblank", "vtt-full", "ssa-small", "ttml-small", "stl-open-25-2", "testdata/example-in.srt", "testdata/example-in.vtt", "testdata/example-in.ttml", "testdata/example-in.ssa", "testdata/example-opn-in.stl"}
 	for _, d := range docs {
 		use := false
 		for _, n := range srcs {
@@ -796,7 +833,7 @@ func run(c *core.Ctx) {
 				if !ok {
 					continue
 				}
-				k := keyNoUID(st)
+				k := keyNoUID(st) + "#" + histDefs
 				if seen[k] && dep > 0 {
 					continue
 				}
